@@ -171,7 +171,7 @@ static ares_status_t init_by_defaults(ares_channel_t *channel)
     }
   }
 
-  if (channel->ndomains == 0) {
+  if (channel->ndomains == 0 && !(channel->optmask & ARES_OPT_DOMAINS)) {
     /* Derive a default domain search list from the kernel hostname,
      * or set it to empty if the hostname isn't helpful.
      */
